@@ -20,6 +20,10 @@ CLAIMS = {
             "Decides, for every failure position, that memory/watchers never observe a write the backing store rejected and that an acknowledged "
             "write went through one bbolt Update transaction first; that loading is gated and flagged only on success. "
             "bbolt's own crash atomicity and reload equality are trusted / not decided.", "§3 C10"),
+    "C15": ("lockset on the cache handler + path-cut on the bootstrap gate, cache-before-notify order and waiter pairing",
+            "Decides that cached reads wait for the bootstrap channel, that the cache is updated before the notification entry of the same "
+            "event, the append-only/silent bootstrap phase, lock discipline, copies out, and the teardown-waiter protocol (close/delete "
+            "pairing, no overwrite, immediate cancel). Monotonicity under schedules and equality at quiescence are not decided.", "§3 C15"),
     "C19": ("value provenance (fresh-copy) analysis on go/ssa + copy-on-write path-cut + who-may-write for raw maps",
             "Decides that nothing but DeepCopy results enters or leaves the store and the read cache, that every in-place write of the "
             "copy-on-write metadata containers targets storage created in the same call, that the module's DeepCopy implementations copy "
